@@ -32,6 +32,7 @@ End TreeInd.
 (* true = "do what the code does", false = "do what the property demands" *)
 Record cquirks := {
   q_excl_above_root : bool;      (* _is_hardcoded_excluded also looks at the components above the project root *)
+                                 (* (all seven describe defects of earlier trees; Actual/CollectActual.v has them off since the fixes) *)
   q_excl_filename : bool;        (* ... and applies the directory-name table to the file's own name *)
   q_dirpat_prefix : bool;        (* "name/" matches by fnmatch(path, "name*"): any path that merely starts with name *)
   q_dirpat_filename : bool;      (* "name/" matches when the file itself (not a directory) is called name *)
@@ -72,36 +73,56 @@ Fixpoint walk (recursive : bool) (pre : list string) (t : tree) {struct t} : lis
   end.
 
 (* ------------------------------------------------------------------ gate 1: _is_hardcoded_excluded *)
-Definition gate_hard (q : cquirks) (abs p : list string) : bool :=
-  if q_excl_above_root q && q_excl_filename q then is_hardcoded_excluded (abs ++ p)
+(* With both flags off the generated function is applied to the project-relative path (what the code does since the
+   fixes b20520c / 27377de); a flag that is on re-creates the former defect on top of the generated ingredients.
+   above = the components above the project root are looked at as well (forced by the gate kind GHardAbs). *)
+Definition gate_hard (q : cquirks) (above : bool) (abs p : list string) : bool :=
+  if negb above && negb (q_excl_filename q) then is_hardcoded_excluded p
   else hx_suffix_cond p
-       || existsb hx_part_cond ((if q_excl_above_root q then abs else [])
-                                ++ (if q_excl_filename q then p else removelast p)).
+       || existsb hx_part_cond ((if above then abs else []) ++ (if q_excl_filename q then p else removelast p)).
 
 (* ------------------------------------------------------------------ gate 2: repository ignores *)
 Definition match_dir (q : cquirks) (path pattern : string) : bool :=
-  if q_dirpat_prefix q && q_dirpat_filename q then matches_directory_pattern_gen fnm path pattern
+  if negb (q_dirpat_prefix q) && negb (q_dirpat_filename q) then matches_directory_pattern_gen fnm path pattern
   else
     let dp := rstrip_chars pattern "/" in
     smem dp (if q_dirpat_filename q then path_parts path else removelast (path_parts path))
     || fnm path (dp ++ (if q_dirpat_prefix q then "*" else "/*"))%string.
 
-Definition matches_core (q : cquirks) (path pattern : string) : bool :=
-  matches_pattern_gen fnm (match_dir q) path pattern.
+(* matches_pattern calls itself on pattern[3:] when the pattern starts with "**/": the knot is tied with fuel
+   (every call drops three characters, so the length of the pattern is enough) *)
+Fixpoint matches_fuel (q : cquirks) (fuel : nat) (path pattern : string) : bool :=
+  match fuel with
+  | 0 => false
+  | S k => matches_pattern_gen (matches_fuel q k) fnm (match_dir q) path pattern
+  end.
 
 Definition matches (q : cquirks) (path pattern : string) : bool :=
-  matches_core q path pattern
-  || (negb (q_doublestar_needs_dir q) && starts_with pattern "**/" && matches_core q path (sdrop 3 pattern)).
+  if q_doublestar_needs_dir q
+  then matches_pattern_gen (fun _ _ => false) fnm (match_dir q) path pattern     (* the former code: no such call *)
+  else matches_fuel q (S (String.length pattern)) path pattern.
 
 Definition opt_list (o : option (list string)) : list string := match o with Some l => l | None => [] end.
 
+(* the config file whose `ignore` list is read: the first existing one of the given names *)
+Definition source_of (s : sources) (name : string) : option (list string) :=
+  if String.eqb name ".thailint.yaml" then s_yaml s else if String.eqb name ".thailint.json" then s_json s else None.
+
+Fixpoint first_config (s : sources) (names : list string) : list string :=
+  match names with
+  | [] => []
+  | n :: r => match source_of s n with Some l => l | None => first_config s r end
+  end.
+
 Definition config_patterns (q : cquirks) (s : sources) : list string :=
-  opt_list (s_yaml s) ++ (if q_json_ignore_unused q then [] else opt_list (s_json s)).
+  first_config s (if q_json_ignore_unused q then filter (fun n => negb (String.eqb n ".thailint.json")) ignore_config_names
+                  else ignore_config_names).
 
 (* _load_repo_ignores *)
 Definition load_patterns (q : cquirks) (s : sources) : list string :=
   match s_ti s with
-  | Some ls => extract_patterns_gen ls ++ (if q_ti_shadows_config q then [] else config_patterns q s)
+  | Some ls => extract_patterns_gen ls
+               ++ (if q_ti_shadows_config q || negb load_combines_sources then [] else config_patterns q s)
   | None => config_patterns q s
   end.
 
@@ -112,7 +133,8 @@ Definition is_ignored (q : cquirks) (pats : list string) (p : list string) : boo
 (* pats = the repository patterns, loaded once when the Orchestrator is created *)
 Definition gate_fires (q : cquirks) (abs : list string) (pats : list string) (p : list string) (g : gate) : bool :=
   match g with
-  | GHard => gate_hard q abs p
+  | GHard => gate_hard q (q_excl_above_root q) abs p
+  | GHardAbs => gate_hard q true abs p
   | GIgnored => is_ignored q pats p
   | GOther => false
   end.
